@@ -10,6 +10,7 @@ use crate::par::HangReport;
 pub mod c01;
 pub mod c02;
 pub mod c03;
+#[cfg(feature = "zoo")]
 pub mod c04;
 pub mod c05;
 pub mod c06;
